@@ -10,9 +10,15 @@
 (*                           girepository/girparser.c (attribute defaults) *)
 (*                           and girnode.c (_g_ir_node_build_typelib)      *)
 (* Part 2  layout: blob sizes of gitypelib-internal.h, the writer's        *)
-(*         sequential allocation of a container blob (WriterLayout) and    *)
-(*         the reader's closed-form section arithmetic (MemberOffset,      *)
-(*         C09), invariants Aligned4 / InBounds / NoOverlap / Contiguous.  *)
+(*         sequential allocation of a container blob (WriterLayout), the   *)
+(*         format's closed-form section arithmetic (MemberOffset, C09) and *)
+(*         the arithmetic of the C accessors as written (AccessorOffset);  *)
+(*         invariants Aligned4 / InBounds / NoOverlap / NoHole /           *)
+(*         ReaderMeetsWriter / AccessorsMeetFormat.                        *)
+(* Part 3  document level (directory, header strings, dependencies), the   *)
+(*         layout invariants on the extents of a decoded file, the reader  *)
+(*         view of a decoded container, determinism, acceptance.           *)
+(* Parts 4-5 (accessor relation, g-ir-generate relation): TypelibApi.tla.  *)
 (*                                                                         *)
 (* GIR attribute values are carried as the strings written in the file:    *)
 (* "" = attribute absent, "0", "1", or the word.  Integers (closure,       *)
@@ -466,8 +472,9 @@ Pad2(n) == 2 * (n + (n % 2))            \* a guint16 index array padded to a 32-
 (* kind in object | interface | struct | union | enum.   ni = n_interfaces / n_prerequisites.                        *)
 NF(c) == Len(c.cbs)
 NFC(c) == Cardinality({i \in 1..Len(c.cbs) : c.cbs[i]})
-RECURSIVE FieldsSize(_, _)
-FieldsSize(cbs, k) == IF k = 0 THEN 0 ELSE FieldsSize(cbs, k - 1) + Size.field + (IF cbs[k] THEN Size.callback ELSE 0)
+\* bytes taken by the first k fields: k FieldBlobs plus one CallbackBlob after every field with an embedded type
+\* (closed form rather than a recursion: containers of the 16-bit boundary documents have thousands of fields)
+FieldsSize(cbs, k) == Size.field * k + Size.callback * Cardinality({j \in 1..k : cbs[j]})
 
 HeadSize(kind) == CASE kind = "object" -> Size.object [] kind = "interface" -> Size.interface [] kind = "struct" -> Size.struct
                     [] kind = "union" -> Size.union [] kind = "enum" -> Size.enum
